@@ -53,6 +53,10 @@ LockStep == s.status = "panic" \/ (TokIdx(s.nodes, 1, 0) = s.tc /\ s.tc = s.pos)
 SayInv(what) == PrintT("INV|" \o ToJson([i |-> i, what |-> what]))
 LockStepReport == (Done(s) /\ s.status = "done") => (TokIdx(s.nodes, 1, 0) = Len(s.w) \/ SayInv("lockstep"))
 
+\* which named deviations of the as-built machine fired in this behaviour (classification of
+\* known findings, DESIGN 6.2)
+DevReport == (Done(s) /\ s.dev # {}) => PrintT("DEV|" \o ToJson([i |-> i, dev |-> s.dev]))
+
 NoModelPanic == s.status # "panic" \/ Recs[i].panic
 
 =============================================================================
